@@ -130,7 +130,7 @@ Definition obs_dec_back (tab : list hentry) (r : outcome (item nat) jws_err) (si
 Definition jws_run (input : list Z) : list Z :=
   match input with
   | kind :: nt :: r0 =>
-    if (kind =? 7) || (kind =? 8) then [] else   (* storage-backed and real-key rows: property oracle only *)
+    if (kind =? 7) || (kind =? 8) || (kind =? 9) then [] else   (* storage-backed and real-key rows (Ed25519 bit flips, ECDSA curve / alg table): property oracle only *)
     match js_take_table (Z.to_nat nt) r0 with
     | None => ERR_DECODE
     | Some (tab, r) =>
